@@ -358,16 +358,25 @@ def _two_day(prog: Program, res: Result):
     f2 = prog.func(q2)
     res.analysed(q2)
     src = {}
-    for s in ast.walk(f2.node):
-        if isinstance(s, ast.Assign) and len(s.targets) == 1 and isinstance(s.targets[0], ast.Name) and s.targets[0].id in ("q_peak", "q_nominal"):
-            src[s.targets[0].id] = s
+    # the two load profiles are whatever is passed as q to simulate_hourly; the nominal one is built from the two-day
+    # profile parameter, the peak-step one is not
+    from ..model import bind_args
+
+    prof_param = next((p_ for p_ in f2.params() if p_ != "self"), None)
+    for c in ast.walk(f2.node):
+        if isinstance(c, ast.Call) and attr_chain(c.func) == "self.simulate_hourly":
+            qa = bind_args(fi, c).get("q")
+            if isinstance(qa, ast.Name):
+                d = next((s for s in ast.walk(f2.node) if isinstance(s, ast.Assign) and len(s.targets) == 1 and isinstance(s.targets[0], ast.Name) and s.targets[0].id == qa.id), None)
+                if d is not None:
+                    uses = any(isinstance(x, ast.Name) and x.id == prof_param for x in ast.walk(d.value))
+                    src["q_nominal" if uses else "q_peak"] = d
     if set(src) != {"q_peak", "q_nominal"}:
-        raise AnalysisError(f"{q2}: definitions of q_peak / q_nominal not found")
+        raise AnalysisError(f"{q2}: definitions of the two load profiles passed to simulate_hourly not found")
     e2 = Engine(prog, f2, Hooks())
     s2 = State()
     for p in f2.params():
         s2.env[p] = Rat.atom(p)
-    s2.env["i"] = Rat.atom("i")
     pk, av = Rat.atom("peak_load"), Rat.atom("avg_load")
 
     def elem_of(stmt):
@@ -379,8 +388,10 @@ def _two_day(prog: Program, res: Result):
             head, tail = v.left, v.right
             if isinstance(tail, ast.BinOp) and isinstance(tail.op, ast.Mult) and isinstance(tail.left, ast.List) and len(tail.left.elts) == 1:
                 return e2.eval(head.elts[0], s2) if isinstance(head, ast.List) and head.elts else None, e2.eval(tail.left.elts[0], s2)
-            if isinstance(tail, ast.ListComp):
-                return e2.eval(head.elts[0], s2) if isinstance(head, ast.List) and head.elts else None, e2.eval(tail.elt, s2)
+            if isinstance(tail, ast.ListComp) and len(tail.generators) == 1 and isinstance(tail.generators[0].target, ast.Name):
+                s3 = s2.fork()
+                s3.env[tail.generators[0].target.id] = Rat.atom("i")
+                return e2.eval(head.elts[0], s2) if isinstance(head, ast.List) and head.elts else None, e2.eval(tail.elt, s3)
         return None, None
 
     h, e = elem_of(src["q_peak"])
